@@ -60,7 +60,8 @@ func TestC34(t *testing.T) {
 
 	topo := &sim.Topology{Pods: []string{"pa", "pb"}}
 	for i := 0; i < 4; i++ {
-		topo.Nodes = append(topo.Nodes, sim.NodeSpec{Name: fmt.Sprintf("n%d", i), Pod: "pa", Cores: 16, Memory: 64 << 30, Up: true})
+		// two pods: operations whose ids span both do not meet at one pod lock
+		topo.Nodes = append(topo.Nodes, sim.NodeSpec{Name: fmt.Sprintf("n%d", i), Pod: []string{"pa", "pb"}[i/2], Cores: 16, Memory: 64 << 30, Up: true})
 	}
 	rounds := env.Pick(3, 6)
 	workers := env.Pick(16, 24)
@@ -77,6 +78,12 @@ func TestC34(t *testing.T) {
 		rec.Eval()
 		for _, n := range topo.Nodes {
 			sim.GetHost(sim.Prefix + n.Name).FailCreateEvery = 2
+			sim.GetHost(sim.Prefix + n.Name).SetCopyBehaviour(func(_, path string) sim.CopyBehaviour {
+				if path == "/partial" {
+					return sim.CopyBehaviour{Mode: "partial", ReadBytes: 1000}
+				}
+				return sim.CopyBehaviour{Mode: "ok"}
+			})
 		}
 		// one node's daemon needs 150 ms for Info: node listings with a shorter deadline end while it is still answering
 		atomic.StoreInt64(&sim.GetHost(sim.Prefix+"n3").InfoDelayNs, int64(150*time.Millisecond))
@@ -132,7 +139,7 @@ func TestC34(t *testing.T) {
 					}
 					switch op {
 					case "create":
-						st, err := cli.CreateWorkload(ctx, &pb.DeployOptions{Name: "app", Entrypoint: &pb.EntrypointOptions{Name: "web"}, Podname: "pa", Image: "img", Count: int32(3 + rr.Intn(6)),
+						st, err := cli.CreateWorkload(ctx, &pb.DeployOptions{Name: "app", Entrypoint: &pb.EntrypointOptions{Name: "web"}, Podname: []string{"pa", "pb"}[rr.Intn(2)], Image: "img", Count: int32(3 + rr.Intn(6)),
 							DeployStrategy: pb.DeployOptions_AUTO, Resources: res(float64(1+rr.Intn(100))/100, rr.Intn(2) == 0), Env: []string{"A=1"}, Labels: map[string]string{"g": fmt.Sprint(g)}})
 						if err == nil {
 							for {
@@ -203,7 +210,16 @@ func TestC34(t *testing.T) {
 						if len(ids) == 0 {
 							break
 						}
-						if st, err := cli.Send(ctx, &pb.SendOptions{IDs: ids, Data: map[string][]byte{"/f": make([]byte, 5000)}, Modes: map[string]*pb.FileMode{"/f": {Mode: 0o644}}, Owners: map[string]*pb.FileOwner{"/f": {Uid: 1, Gid: 1}}}); err == nil {
+						// one send in three goes to a path the engines reject after a partial read, or names a workload that
+						// does not exist: transfers that fail while more chunks of the file are still to come
+						path := "/f"
+						switch rr.Intn(6) {
+						case 0:
+							path = "/partial"
+						case 1:
+							ids = append(ids, "0000000000000000000000000000000000000000000000000000000000000bad")
+						}
+						if st, err := cli.Send(ctx, &pb.SendOptions{IDs: ids, Data: map[string][]byte{path: make([]byte, 5000+rr.Intn(30000))}, Modes: map[string]*pb.FileMode{path: {Mode: 0o644}}, Owners: map[string]*pb.FileOwner{path: {Uid: 1, Gid: 1}}}); err == nil {
 							for {
 								if _, err := st.Recv(); err != nil {
 									break
